@@ -149,8 +149,10 @@ def run(ctx):
     for bi, t in pm.calls(r'rpc::push_u32$'):
         v = pm.argv(bi, 1)
         fs = facts_at(pstates, bi)
-        if ci_field(v, ['port', 'dst']):
-            rep.check(r5, bool(fs) and all(holds(f_, 'prog_version', '==', 2) for f_ in fs), 'port-word@version2', 'push_u32(client_info.port.dst) only for version 2', pm.loc(bi))
+        if any(isinstance(x, tuple) and x[0] == 'entry' and Fn.root_of(x[1]) == ('deref', ('param', 2)) for x in walk(v)):
+            n_ = len([1 for i_ in rep.rules[r5]['instances'] if i_['key'].startswith('port-word')]) + 1
+            rep.check(r5, ci_field(v, ['port', 'dst']) and bool(fs) and all(holds(f_, 'prog_version', '==', 2) for f_ in fs), 'port-word#%d' % n_,
+                      'push_u32(%s): must be client_info.port.dst, only for version 2' % short(v)[:60], pm.loc(bi))
     for bi, t in pm.calls(r'rpc::push_string_pad$'):
         v = pm.argv(bi, 1)
         fm = fmt_of(v)
@@ -160,8 +162,14 @@ def run(ctx):
             okv = bool(fs) and all(holds(f_, 'prog_version', '==', 3) or holds(f_, 'prog_version', '==', 4) for f_ in fs)
             # address: client_info.ip.dst (directly or through the Rpcb record built from it); port halves: >> 8 and % 256 / & 0xff of port.dst
             def from_dst(e, path):
-                return any(ci_field(x, path) for x in walk(e) if isinstance(x, tuple) and x[0] == 'entry') or \
-                    any(isinstance(x, tuple) and x[0] == 'field' and x[2] in ('addr', 'port') for x in walk(e))
+                e = peel(e, casts=True)
+                if isinstance(e, tuple) and e[0] == 'bin' and e[1] in ('Shr', 'Rem', 'BitAnd'):
+                    e = peel(e[2], casts=True)
+                if ci_field(e, path):
+                    return True
+                # a field of the Rpcb record being listed (records are checked to hold ip.dst / port.dst below)
+                return isinstance(e, tuple) and e[0] == 'field' and e[2] == {'ip': 'addr', 'port': 'port'}[path[0]] and calls_in(e[1], r'::next$') != [] and \
+                    not any(isinstance(x, tuple) and x[0] == 'entry' for x in walk(e))
             hi = isinstance(a1, tuple) and a1[0] == 'bin' and a1[1] == 'Shr' and const_val(a1[3]) == 8
             lo = isinstance(a2, tuple) and a2[0] == 'bin' and ((a2[1] == 'Rem' and const_val(a2[3]) == 256) or (a2[1] == 'BitAnd' and const_val(a2[3]) == 0xff))
             rep.check(r5, okv and hi and lo and from_dst(a0, ['ip', 'dst']) and from_dst(a1, ['port', 'dst']) and from_dst(a2, ['port', 'dst']),
